@@ -267,3 +267,92 @@ func init() {
 		in["(*golang.org/x/sync/errgroup.Group).SetLimit"] = func(w *Worker, fr *frame, fn *ssa.Function, args []value) value { return nil }
 	})
 }
+
+// time.Time comparisons / differences on symbolic instants. Only times without
+// a monotonic clock reading are modelled (wall = nanoseconds, ext = seconds since
+// year 1): that is what time.Unix and time.Parse produce. Differences are
+// computed over mathematical integers (no 64-bit division by 10^9 in the solver).
+func init() {
+	moreRegs = append(moreRegs, func(eng *Engine) {
+		in := eng.intrinsics
+		parts := func(w *Worker, v value) (sec, nsec *Term, ok bool) {
+			s, isS := v.(structure)
+			if !isS || len(s) < 2 {
+				return nil, nil, false
+			}
+			_, symWall := s[0].(*Term)
+			_, symExt := s[1].(*Term)
+			if !symWall && !symExt {
+				return nil, nil, false // concrete: interpret the real code
+			}
+			if wc, okc := s[0].(uint64); okc {
+				if wc>>63 != 0 {
+					unsupported("symbolic time with monotonic clock reading")
+				}
+				nsec = w.tc.IntConst64(int64(wc & (1<<30 - 1)))
+			} else {
+				unsupported("symbolic nanosecond field in time.Time")
+			}
+			sec = w.asIntTerm(s[1], 64, true)
+			return sec, nsec, true
+		}
+		nanos := func(w *Worker, sec, nsec *Term) *Term {
+			return w.tc.IntBin(OIntAdd, w.tc.IntBin(OIntMul, sec, w.tc.IntConst64(1000000000)), nsec)
+		}
+		cmp := func(op string) intrinsicFn {
+			return func(w *Worker, fr *frame, fn *ssa.Function, args []value) value {
+				ts, tn, ok1 := parts(w, args[0])
+				us, un, ok2 := parts(w, args[1])
+				if !ok1 && !ok2 {
+					return w.callBody(fr, fn, args)
+				}
+				if !ok1 {
+					ts, tn = partsConcrete(w, args[0])
+				}
+				if !ok2 {
+					us, un = partsConcrete(w, args[1])
+				}
+				a, b := nanos(w, ts, tn), nanos(w, us, un)
+				switch op {
+				case "After":
+					return simp(w.tc.IntCmp(OIntLt, b, a))
+				case "Before":
+					return simp(w.tc.IntCmp(OIntLt, a, b))
+				default:
+					return simp(w.tc.Eq(a, b))
+				}
+			}
+		}
+		in["(time.Time).After"] = cmp("After")
+		in["(time.Time).Before"] = cmp("Before")
+		in["(time.Time).Equal"] = cmp("Equal")
+		in["(time.Time).Sub"] = func(w *Worker, fr *frame, fn *ssa.Function, args []value) value {
+			ts, tn, ok1 := parts(w, args[0])
+			us, un, ok2 := parts(w, args[1])
+			if !ok1 && !ok2 {
+				return w.callBody(fr, fn, args)
+			}
+			if !ok1 {
+				ts, tn = partsConcrete(w, args[0])
+			}
+			if !ok2 {
+				us, un = partsConcrete(w, args[1])
+			}
+			d := w.tc.IntBin(OIntSub, nanos(w, ts, tn), nanos(w, us, un))
+			maxD, minD := w.tc.IntConst(maxI64), w.tc.IntConst(minI64)
+			// saturating, as time.Time.Sub
+			d = w.tc.Ite(w.tc.IntCmp(OIntLt, maxD, d), maxD, w.tc.Ite(w.tc.IntCmp(OIntLt, d, minD), minD, d))
+			return simp(d) // Int-sorted int64 (Duration)
+		}
+	})
+}
+
+func partsConcrete(w *Worker, v value) (*Term, *Term) {
+	s := v.(structure)
+	wall, _ := s[0].(uint64)
+	ext, _ := s[1].(uint64)
+	if wall>>63 != 0 {
+		unsupported("time with monotonic clock reading")
+	}
+	return w.tc.IntConst64(int64(ext)), w.tc.IntConst64(int64(wall & (1<<30 - 1)))
+}
